@@ -102,6 +102,8 @@ struct C08 : Scenario {
 			p.seti("trunc", trunc);
 			p.seti("errat", errat);
 			p.seti("canary", 1);
+			// (not the first three allocations: the tool dereferences the stream/reader it failed to create; start-up under OOM is outside every listed property)
+			if (rng.chance(1, 6)) p.seti("afail", 3 + (int64_t) rng.below(80));
 		} else {
 			Task t;
 			static const char *kinds[] = {"FILE_SEEK", "FILE_PIPE", "FILE_HALFSEEK", "CB_SKIP", "CB_NOSKIP"};
